@@ -194,7 +194,7 @@ def object_pipeline(regular_rule=None, duffy=None, kernel_stubs=None):
     """Run the real assembly glue with object arrays:
        * helpers.get_type -> object dtypes (allocation dtype only)
        * triangle_gauss.rule -> `regular_rule(order)` if given (contract stub: generic points/weights)
-       * duffy_galerkin.rule / number_of_quadrature_points -> `duffy` = {adjacency: (test_pts, trial_pts, weights)} if given
+       * duffy_galerkin.rule / number_of_quadrature_points -> `duffy` = {adjacency: (test_pts, trial_pts, weights)} (or order -> such a dict) if given
        * numba_kernels.<name> -> stubs, dict name -> callable
        * numpy facade inside duffy_galerkin (remap helpers allocate float64 arrays)
     """
@@ -210,8 +210,9 @@ def object_pipeline(regular_rule=None, duffy=None, kernel_stubs=None):
     if duffy is not None:
         saved.append((duffy_galerkin, "rule", duffy_galerkin.rule))
         saved.append((duffy_galerkin, "number_of_quadrature_points", duffy_galerkin.number_of_quadrature_points))
-        duffy_galerkin.rule = lambda order, adjacency: duffy[adjacency]
-        duffy_galerkin.number_of_quadrature_points = lambda order, adjacency: len(duffy[adjacency][2])
+        dz = duffy if callable(duffy) else (lambda order: duffy)
+        duffy_galerkin.rule = lambda order, adjacency: dz(order)[adjacency]
+        duffy_galerkin.number_of_quadrature_points = lambda order, adjacency: len(dz(order)[adjacency][2])
     for name, fn in (kernel_stubs or {}).items():
         saved.append((NK, name, getattr(NK, name)))
         setattr(NK, name, fn)
